@@ -163,41 +163,55 @@ func nilArtefacts(h *hz.H, sp *enum.Space, c enum.Case, b bounds, d proto.Messag
 		if !isMsgList && !isMsgMap && !isOneofMsg {
 			continue
 		}
-		g := enum.BuildGo(d.ProtoReflect())
-		if isOneofMsg {
-			// the member selected with nil inside its wrapper (&T_Member{}): encodes as tag + length 0
-			if !enum.InjectNilOneof(g, fd) {
+		// for string-keyed message maps also keys whose length puts the entry at a length-prefix boundary
+		keyLens := []int{-1}
+		if isMsgMap && fd.MapKey().Kind() == protoreflect.StringKind && len(c) <= 1 {
+			keyLens = append(keyLens, 121, 122, 123, 124, 125, 126, 16376, 16377, 16378, 16379, 16380)
+		}
+		for _, keyLen := range keyLens {
+			g := enum.BuildGo(d.ProtoReflect())
+			if isOneofMsg {
+				// the member selected with nil inside its wrapper (&T_Member{}): encodes as tag + length 0
+				if !enum.InjectNilOneof(g, fd) {
+					continue
+				}
+			} else if keyLen >= 0 {
+				if !enum.InjectNilKeyLen(g, int(fd.Number()), keyLen) {
+					continue
+				}
+			} else if !enum.InjectNil(g, int(fd.Number())) {
 				continue
 			}
-		} else if !enum.InjectNil(g, int(fd.Number())) {
-			continue
-		}
-		var ref []byte
-		if p := hz.Catch(func() {
-			mo, err := proto.MarshalOptions{Deterministic: true, AllowPartial: true}.MarshalState(protoiface.MarshalInput{Message: enum.Slow(g)})
-			if err != nil {
-				panic(err)
-			}
-			ref = mo.Buf
-		}); p != nil {
-			continue // the reference does not accept this struct: not judged
-		}
-		vc := mkCase(sp, c, b, true, fmt.Sprintf("nil-artefact:%d", fd.Number()))
-		h.Eval(true, hz.HashBytes([]byte("C04nil"), []byte(sp.MD.FullName()), []byte(fd.Name()), ref))
-		for _, det := range []bool{true, false} {
-			var sz int
-			var enc []byte
-			var err error
+			var ref []byte
 			if p := hz.Catch(func() {
-				sz = proto.MarshalOptions{Deterministic: det}.Size(g)
-				enc, err = proto.MarshalOptions{Deterministic: det}.Marshal(g)
-			}); p != nil || err != nil {
-				h.Violate(caseKey("C04", "nil-element/panic", sp, c)+"#"+shapeOf(fd), fmt.Sprintf("Size/Marshal(det=%v) of %s plus a nil message in field %s: panic=%v err=%v (the reference codec encodes the same struct as %x)", det, sp.Label(c), fd.Name(), p, err, clip(ref)), vc)
-				break
+				mo, err := proto.MarshalOptions{Deterministic: true, AllowPartial: true}.MarshalState(protoiface.MarshalInput{Message: enum.Slow(g)})
+				if err != nil {
+					panic(err)
+				}
+				ref = mo.Buf
+			}); p != nil {
+				continue // the reference does not accept this struct: not judged
 			}
-			if sz != len(ref) || len(enc) != len(ref) || det && !bytes.Equal(enc, ref) {
-				h.Violate(caseKey("C04", "nil-element/size", sp, c)+"#"+shapeOf(fd), fmt.Sprintf("%s plus a nil message in field %s (det=%v): proto.Size=%d len(Marshal)=%d bytes=%x; the reference codec over the same struct gives %d bytes %x", sp.Label(c), fd.Name(), det, sz, len(enc), clip(enc), len(ref), clip(ref)), vc)
-				break
+			vc := mkCase(sp, c, b, true, fmt.Sprintf("nil-artefact:%d", fd.Number()))
+			if keyLen >= 0 {
+				vc = mkCase(sp, c, b, true, fmt.Sprintf("nil-artefact:%d:keylen=%d", fd.Number(), keyLen))
+			}
+			h.Eval(true, hz.HashBytes([]byte("C04nil"), []byte(sp.MD.FullName()), []byte(fd.Name()), ref))
+			for _, det := range []bool{true, false} {
+				var sz int
+				var enc []byte
+				var err error
+				if p := hz.Catch(func() {
+					sz = proto.MarshalOptions{Deterministic: det}.Size(g)
+					enc, err = proto.MarshalOptions{Deterministic: det}.Marshal(g)
+				}); p != nil || err != nil {
+					h.Violate(caseKey("C04", "nil-element/panic", sp, c)+"#"+shapeOf(fd), fmt.Sprintf("Size/Marshal(det=%v) of %s plus a nil message in field %s: panic=%v err=%v (the reference codec encodes the same struct as %x)", det, sp.Label(c), fd.Name(), p, err, clip(ref)), vc)
+					break
+				}
+				if sz != len(ref) || len(enc) != len(ref) || det && !bytes.Equal(enc, ref) {
+					h.Violate(caseKey("C04", "nil-element/size", sp, c)+"#"+shapeOf(fd), fmt.Sprintf("%s plus a nil message in field %s (det=%v): proto.Size=%d len(Marshal)=%d bytes=%x; the reference codec over the same struct gives %d bytes %x", sp.Label(c), fd.Name(), det, sz, len(enc), clip(enc), len(ref), clip(ref)), vc)
+					break
+				}
 			}
 		}
 	}
